@@ -19,7 +19,11 @@
 // invalid-id:<term|nonterm|produce:quoted|produce:unquoted>:<leading-digit|bad-char>, dup-id:<kind>+<kind>,
 // style:produce:<style>, panic:<where>:<site>.
 //
-// Oracle (B, C): compiler.Compile succeeds => every Syms[i].ID matches ^[A-Za-z_][A-Za-z0-9_]*$ and
+//	D. explicit lexeme IDs (name (ID): /re/): a terminal with an explicit ID alone, next to a second one,
+//	   next to every small terminal / nonterminal in both declaration orders, in triples, and next to
+//	   compiler-derived nonterminals, with coinciding and differing IDs.
+//
+// Oracle (B, C, D): compiler.Compile succeeds => every Syms[i].ID matches ^[A-Za-z_][A-Za-z0-9_]*$ and
 // no two distinct symbols have the same ID (a collision must have produced a compile error).
 // Oracle (A): the identifier matches the same pattern; the upper-case styles contain no lower-case
 // letter; for unquoted names starting with a letter CamelCase starts with an upper-case and
@@ -223,6 +227,7 @@ func checkProduce(sp spelling) (string, string) {
 type decl struct {
 	Kind string `json:"kind"` // term | nonterm
 	Text string `json:"text"`
+	ID   string `json:"id,omitempty"` // terminals only: explicit lexeme ID, written as  text (ID): /re/
 }
 
 // grammarFor builds the minimal grammar declaring the given symbols in the given order.
@@ -231,11 +236,15 @@ type decl struct {
 func grammarFor(decls []decl) string {
 	var b strings.Builder
 	b.WriteString("language l(go);\n:: lexer\nzz: /z/\n")
-	pat := []string{"x", "y"}
+	pat := []string{"x", "y", "w"}
 	nt := 0
 	for _, d := range decls {
 		if d.Kind == "term" {
-			fmt.Fprintf(&b, "%s: /%s/\n", d.Text, pat[nt%2])
+			if d.ID != "" {
+				fmt.Fprintf(&b, "%s (%s): /%s/\n", d.Text, d.ID, pat[nt%len(pat)])
+			} else {
+				fmt.Fprintf(&b, "%s: /%s/\n", d.Text, pat[nt%len(pat)])
+			}
 			nt++
 		}
 	}
@@ -366,7 +375,8 @@ func run(c *core.Ctx) {
 	debug.SetGCPercent(400) // thousands of tiny compilations on 16 goroutines: the collector was half of the cost
 	c.Rule("A: every admitted spelling (unquoted over {a,B,_,-,1}, '..' and \"..\" over {a,B,_,-,1,+,\\,',\",é}) x 4 ident styles; " +
 		"B: each spelling declared alone as terminal and as nonterminal in a minimal grammar through compiler.Compile; " +
-		"C: every pair of declarations the parser admits (B outcome is not a syntax error) in one grammar. Non-trivial = Compile got as far as " +
+		"C: every pair of declarations the parser admits (B outcome is not a syntax error) in one grammar; " +
+		"D: terminals with an explicit ID (every ID that can coincide with a small symbol's identifier) alone, in ordered pairs with each other and with every small terminal/nonterminal (both orders), in triples and next to compiler-derived nonterminals. Non-trivial = Compile got as far as " +
 		"assigning identifiers (success, or a same-ID/redeclaration diagnostic), i.e. not a syntax error; distinct by (kind, spelling) tuple and order")
 	c.Assume("the tm lexer rules ID, quoted_id and scon are as in parsers/tm/textmapper.tm (the admission predicates are re-stated from them; a spelling they wrongly admit only yields a syntax-error outcome, never a violation)")
 
@@ -424,18 +434,18 @@ func run(c *core.Ctx) {
 		res := make([]result, len(sps))
 		core.ParallelFor(len(sps), 16, func(i int) {
 			var r result
-			r.key, r.msg, r.outcome = checkCompile([]decl{{kind, sps[i].Text}})
+			r.key, r.msg, r.outcome = checkCompile([]decl{{Kind: kind, Text: sps[i].Text}})
 			res[i] = r
 		})
 		for i, sp := range sps {
-			d := decl{kind, sp.Text}
+			d := decl{Kind: kind, Text: sp.Text}
 			account("single:"+kind+":"+sp.Class, []decl{d}, res[i])
 			if res[i].outcome != "error:syntax-error" {
 				admitted = append(admitted, pdecl{d, inBase(sp)})
 			}
 		}
 	}
-	c.Sample(map[string]string{"grammar": grammarFor([]decl{{"term", "'+'"}, {"nonterm", "a-1"}})})
+	c.Sample(map[string]string{"grammar": grammarFor([]decl{{Kind: "term", Text: "'+'"}, {Kind: "nonterm", Text: "a-1"}})})
 
 	// --- B2: every admitted unquoted terminal spelling next to compiler-derived nonterminals
 	derived := 0
@@ -455,6 +465,11 @@ func run(c *core.Ctx) {
 		}
 	}
 	c.Set("derived_nonterminal_grammars", derived)
+
+	// --- D: explicit lexeme IDs (name (ID): /re/). A terminal with an explicit ID is declared next to
+	// other terminals with explicit IDs, terminals with derived IDs (unquoted and quoted), nonterminals
+	// and compiler-derived nonterminals, in both declaration orders, with coinciding and differing IDs.
+	explicitIDs(c, account)
 
 	// --- C: pairs. Base set: unordered in quick, both orders in thorough. Extended set (thorough):
 	// unordered pairs with at least one member outside the base set.
@@ -549,6 +564,139 @@ func run(c *core.Ctx) {
 	for k, v := range outcomes {
 		c.Outcome(k, v)
 	}
+}
+
+// explicitIDSet is every spelling usable as an explicit lexeme ID that can coincide with the
+// identifier of a small symbol: the UpperCase and CamelCase identifiers of the names with <= 2 unquoted /
+// <= 1 quoted letters, their lower-case spellings (the lexer compiler upper-cases an explicit ID that
+// contains a lower-case letter), the unquoted names themselves and the identifiers of the built-in and
+// helper symbols. Only spellings the tm ID rule admits are kept.
+func explicitIDSet() []string {
+	seen := map[string]bool{}
+	var out []string
+	add := func(id string) {
+		if admittedID(id) && !seen[id] {
+			seen[id] = true
+			out = append(out, id)
+		}
+	}
+	for _, sp := range spellings(2, 1) {
+		if sp.Class == "unquoted" {
+			add(sp.Text)
+		}
+		u := ident.Produce(sp.Text, ident.UpperCase)
+		add(u)
+		add(strings.ToLower(u))
+		add(ident.Produce(sp.Text, ident.CamelCase))
+	}
+	for _, id := range []string{"EOI", "eoi", "INVALID_TOKEN", "invalid_token", "ERROR", "ZZ", "zz", "Input", "INPUT"} {
+		add(id)
+	}
+	return out
+}
+
+// derivedContexts are grammars in which the compiler derives nonterminals itself (template instance
+// B_F -> BF, mid-rule action B$1 -> B_1, list, optional, set, lookahead); zp stands for the declaration
+// of terminal zp.
+func derivedContexts(zp string) []string {
+	head := "language l(go);\n:: lexer\nzz: /z/\n" + zp + "\nc: /y/\n:: parser\n"
+	return []string{
+		head + "%flag F;\ninput: B<+F> zp;\nB<F>: [F] c | [!F] zz;\n",
+		head + "input: B zp;\nB: zz { act() } c;\n",
+		head + "%flag F;\ninput: B<+F> zp B<~F>;\nB<F>: [F] c { act() } zz | [!F] zz;\n",
+		head + "input: B+ zp (zz separator c)+ zp set(c | zz) zp B1;\nB: c;\nB1: (?= B) c | (?= !B) c c;\n",
+	}
+}
+
+func explicitIDs(c *core.Ctx, account func(tag string, decls []decl, r result)) {
+	ids := explicitIDSet()
+	c.Set("explicit_ids", len(ids))
+	// partners: every declaration with <= 2 unquoted / <= 1 quoted letters the parser admits
+	var partners []decl
+	for _, kind := range []string{"term", "nonterm"} {
+		for _, sp := range spellings(2, 1) {
+			if kind == "nonterm" && sp.Class != "unquoted" {
+				continue // the tm syntax has no quoted nonterminals (see B)
+			}
+			if emptyShape(sp.Text) != "other" {
+				continue // rejected on its own (no identifier can be derived): nothing to clash with
+			}
+			partners = append(partners, decl{Kind: kind, Text: sp.Text})
+		}
+	}
+	var cases [][]decl
+	x := func(name, id string) decl { return decl{Kind: "term", Text: name, ID: id} }
+	for _, id := range ids { // alone
+		cases = append(cases, []decl{x("zp", id)})
+	}
+	for _, id := range ids { // explicit + explicit (ordered pairs, incl. the same ID twice)
+		for _, id2 := range ids {
+			cases = append(cases, []decl{x("zp", id), x("zq", id2)})
+		}
+	}
+	for _, id := range ids { // explicit + derived terminal / nonterminal, both orders
+		for _, p := range partners {
+			cases = append(cases, []decl{x("zp", id), p}, []decl{p, x("zp", id)})
+		}
+	}
+	// triples: explicit + terminal + nonterminal with <= 1 letter, the explicit one first and last
+	for _, id := range ids {
+		for _, t := range partners {
+			if t.Kind != "term" || len(strings.Trim(t.Text, "'\"")) > 1 {
+				continue
+			}
+			for _, n := range partners {
+				if n.Kind != "nonterm" || len(n.Text) > 1 {
+					continue
+				}
+				cases = append(cases, []decl{x("zp", id), t, n}, []decl{t, x("zp", id), n})
+			}
+		}
+	}
+	res := make([]result, len(cases))
+	core.ParallelFor(len(cases), 16, func(i int) {
+		var r result
+		r.key, r.msg, r.outcome = checkCompile(cases[i])
+		if r.key != "" {
+			r.key += ":explicit-id"
+		}
+		res[i] = r
+	})
+	for i, ds := range cases {
+		account(fmt.Sprintf("explicit-id:%d-symbols", len(ds)), ds, res[i])
+	}
+	c.Sample(map[string]string{"grammar": grammarFor([]decl{x("zp", "plus"), {Kind: "term", Text: "'+'"}, {Kind: "nonterm", Text: "B"}})})
+
+	// compiler-derived nonterminals: learn their identifiers from the real compiler, then give zp
+	// each of them (and each enumerated ID) explicitly.
+	n := 0
+	for ci, base := range derivedContexts("zp: /x/") {
+		g, err := compiler.Compile(context.Background(), "c28.tm", base, compiler.Params{})
+		if err != nil || g == nil {
+			c.Violate("harness:derived-context", fmt.Sprintf("context grammar %d does not compile: %v\n%s", ci, err, base), rcase{Mode: "text", Text: base})
+			continue
+		}
+		try := append([]string{}, ids...)
+		for _, s := range g.Syms[g.NumTokens:] {
+			if admittedID(s.ID) {
+				try = append(try, s.ID)
+			}
+		}
+		for _, id := range try {
+			text := derivedContexts("zp (" + id + "): /x/")[ci]
+			key, msg, outcome := checkText(text, nil)
+			n++
+			c.Eval(1)
+			c.Outcome("explicit-id:derived-nonterminal:"+outcome, 1)
+			if outcome == "ok" || outcome == "error:same-id" {
+				c.Nontrivial(1)
+			}
+			if key != "" {
+				c.Violate(key+":explicit-id:derived-nonterminal", msg, rcase{Mode: "text", Text: text})
+			}
+		}
+	}
+	c.Set("explicit_id_cases", len(cases)+n)
 }
 
 func replay(c *core.Ctx, raw json.RawMessage) error {
